@@ -135,7 +135,8 @@ pub fn gen_selector(src: &mut Src, lim: &Lim) -> Sel {
 
 pub fn gen_segment(src: &mut Src, lim: &Lim) -> Seg {
     let desc = src.chance(1, 5);
-    let n = src.weighted(&[75, 18, 7]) + 1;
+    // rarely a very long union (beyond 8 / 16 / 32 / 64 selectors)
+    let n = if src.chance(1, 150) { *src.pick(&[9usize, 17, 33, 65]) } else { src.weighted(&[75, 18, 7]) + 1 };
     let sels: Vec<Sel> = (0..n).map(|_| gen_selector(src, lim)).collect();
     let mut seg = Seg { desc, sels, dot: false };
     if seg.can_dot() && src.chance(2, 3) {
@@ -145,7 +146,8 @@ pub fn gen_segment(src: &mut Src, lim: &Lim) -> Seg {
 }
 
 pub fn gen_segments(src: &mut Src, lim: &Lim, max: usize) -> Vec<Seg> {
-    let n = src.weighted(&[10, 35, 30, 15, 7, 3]).min(max);
+    // rarely a very long chain of segments
+    let n = if max >= 5 && src.chance(1, 150) { *src.pick(&[9usize, 17, 33, 65]) } else { src.weighted(&[10, 35, 30, 15, 7, 3]).min(max) };
     (0..n).map(|_| gen_segment(src, lim)).collect()
 }
 
@@ -217,7 +219,7 @@ pub fn gen_logical(src: &mut Src, lim: &Lim, depth: usize) -> Expr {
         2 => Expr::Paren(false, Box::new(gen_logical(src, lim, depth - 1))),
         3 => Expr::Paren(true, Box::new(gen_logical(src, lim, depth - 1))),
         4 => {
-            let n = 2 + src.weighted(&[75, 25]);
+            let n = if src.chance(1, 100) { *src.pick(&[9usize, 17, 33]) } else { 2 + src.weighted(&[75, 25]) };
             Expr::And(
                 (0..n)
                     .map(|_| match gen_logical(src, lim, depth - 1) {
@@ -228,7 +230,7 @@ pub fn gen_logical(src: &mut Src, lim: &Lim, depth: usize) -> Expr {
             )
         }
         5 => {
-            let n = 2 + src.weighted(&[75, 25]);
+            let n = if src.chance(1, 100) { *src.pick(&[9usize, 17, 33]) } else { 2 + src.weighted(&[75, 25]) };
             Expr::Or(
                 (0..n)
                     .map(|_| match gen_logical(src, lim, depth - 1) {
